@@ -32,7 +32,7 @@ def runs_for(pid, tier, seed):
             R('s2core/IP', fm.s2core(CritLists=none, CheckIP=True, ReportCap=64, Stabs={False} if q else {False, True})),
             R('zerocap', fm.zerocap(CritLists=none, ReportCap=64, Stabs={False} if q else {False, True})),
             R('hr2', fm.hr2(CritLists=none, ReportCap=64, CheckIP=True, Stabs={False} if q else {False, True})),
-            R('wide3x3x2', fm.wide(CritLists=some + fm.sample_lists(rng, 40, 4), ReportCap=4), simulate=3000 if q else 40000),
+            R('wide3x3x2', fm.wide(ReportCap=4, **fm.build(0, 4)), simulate=3000 if q else 40000),
             R('wide-hr3x3', fm.wide(na=2, CritLists=some, ReportCap=4), simulate=1500 if q else 20000),
         ]
         if not q:
@@ -52,8 +52,8 @@ def runs_for(pid, tier, seed):
             R('targets(1 student,2 lecturers) x singles+pairs', fm.fam(CritLists=fm.singles() + pr, CheckIP=True, **lec3)),
             R('s2core x pairs', fm.s2core(CritLists=pr + pr1, PQ={(0, 1), (1, 2)}, LQ={(0, 1, 1), (0, 2, 2)}, MaxLen=2, TieMode='none',
                                           Stabs={False}), simulate=4000 if q else 60000),
-            R('wide x lists<=9', fm.wide(CritLists=fm.sample_lists(rng, 300, 9) + none), simulate=3000 if q else 40000),
-            R('wide-hr x lists', fm.wide(na=2, CritLists=fm.sample_lists(rng, 200, 6)), simulate=1500 if q else 20000),
+            R('wide x lists<=9', fm.wide(**fm.build(1, 9)), simulate=3000 if q else 40000),
+            R('wide-hr x lists', fm.wide(na=2, **fm.build(1, 6)), simulate=1500 if q else 20000),
             R('zerocap x singles', fm.zerocap(CritLists=fm.singles(False))) if not q else
             R('zerocap x singles', fm.zerocap(CritLists=fm.singles(False)), simulate=3000),
         ]
@@ -81,10 +81,11 @@ def runs_for(pid, tier, seed):
         pr = fm.pairs(0) + rng.sample(fm.pairs(1), 30) + rng.sample(fm.pairs(2), 30)
         tr = rng.sample(fm.triples(), 120 if q else 504)
         runs = [
-            R('s2core x pairs (id/rev/gap)', fm.s2core(CritLists=pr, Press={'id', 'rev', 'gap'}, MaxLen=2), simulate=5000 if q else 80000),
-            R('wide x pairs+triples', fm.wide(CritLists=pr + tr, Press={'id', 'rev', 'gap'}), simulate=4000 if q else 60000),
-            R('wide-hr x pairs', fm.wide(na=2, CritLists=pr, Press={'id', 'rev'}), simulate=1500 if q else 20000),
-            R('shared3 x triples', fm.shared3(CritLists=tr, Press={'id', 'gap'}), simulate=2000 if q else 30000),
+            R('s2core x 2-3 criteria (id/rev/gap)', fm.s2core(Press={'id', 'rev', 'gap'}, MaxLen=2, **fm.build(2, 3)), simulate=5000 if q else 80000),
+            R('wide x 2-4 criteria', fm.wide(Press={'id', 'rev', 'gap'}, **fm.build(2, 4)), simulate=4000 if q else 60000),
+            R('wide x 5-9 criteria', fm.wide(Press={'id', 'rev'}, **fm.build(5, 9)), simulate=500 if q else 8000),
+            R('wide-hr x 2-3 criteria', fm.wide(na=2, Press={'id', 'rev'}, **fm.build(2, 3)), simulate=1500 if q else 20000),
+            R('shared3 x 3 criteria', fm.shared3(Press={'id', 'gap'}, **fm.build(3, 3)), simulate=2000 if q else 30000),
         ]
         return runs
     if pid == 'C05':
